@@ -373,11 +373,15 @@ pub fn gen_history(r: &mut Sm, maxops: usize) -> Vec<Op> {
 pub fn run_ops(out: &mut impl Write, ops: &[Op], seed: u64) {
     let mut ex = Exec::new(seed);
     for op in ops {
-        let o = ex.exec(op);
-        if o.is_empty() {
-            writeln!(out, "{}", op.text()).unwrap();
-        } else {
-            writeln!(out, "{} => {}", op.text(), o).unwrap();
+        // a panic of the real code is an outcome to report, not a harness failure
+        let r = std::panic::catch_unwind(std::panic::AssertUnwindSafe(|| ex.exec(op)));
+        match r {
+            Ok(o) if o.is_empty() => writeln!(out, "{}", op.text()).unwrap(),
+            Ok(o) => writeln!(out, "{} => {}", op.text(), o).unwrap(),
+            Err(e) => {
+                writeln!(out, "{} => PANIC {}", op.text(), crate::panic_text(&e)).unwrap();
+                return; // the state after a panic is unspecified: end this history
+            }
         }
     }
 }
